@@ -11,7 +11,7 @@ import progs  # noqa: E402
 FEATURES = {'weights': {'define': 6, 'call': 6, 'assign': 5, 'print': 5, 'action': 1, 'setreg': 1,
                         'repeat': 3, 'if': 3, 'wait': 0, 'units': 0, 'timeat': 0, 'macro': 0, 'get': 0},
             'recursion': True, 'shadow': 0.8, 'zones': False, 'matrix': False, 'default': False,
-            'none_values': True, 'shared_names': True}
+            'none_values': True, 'shared_names': True, 'printf_calls': True}
 
 
 def num(v):
